@@ -32,7 +32,7 @@ import (
 
 	"verif/harness/corex"
 	"verif/harness/hx"
-	"verif/harness/sessx"
+	sessx "verif/harness/scriptx"
 )
 
 func flag(b bool) string {
@@ -302,11 +302,11 @@ func cycleOf(s *sessx.Session, w *sessx.World) (string, *core.Entry, *core.Entry
 }
 
 type cycleCase struct {
-	mode       core.SynchronizationMode
-	modeName   string
-	portable   bool
-	pa, pb     bool
-	A, al, be  *core.Entry
+	mode      core.SynchronizationMode
+	modeName  string
+	portable  bool
+	pa, pb    bool
+	A, al, be *core.Entry
 }
 
 func parseCycle(f []string) (*cycleCase, bool) {
